@@ -80,6 +80,23 @@ fn range_window_2x1() { check_window(2, 1); }
 #[kani::unwind(7)]
 fn range_window_2x2() { check_window(2, 2); }
 
+/// quick-tier selection for the 2x2 source at (1, 2): the 10 row intervals inside rows 0..=3 paired with the 10 column
+/// intervals inside cols 1..=4 "diagonally" (k-th with k-th and k-th with (9-k)-th): 20 windows, every relative
+/// position per axis occurs twice.  The full cross products are the thorough-tier harnesses range_window_HxW.
+#[kani::proof]
+#[kani::unwind(11)]
+fn range_window_2x2_sel() {
+    let src = any_src(2, 2);
+    let rows: [(u32, u32); 10] = [(0, 0), (0, 1), (0, 2), (0, 3), (1, 1), (1, 2), (1, 3), (2, 2), (2, 3), (3, 3)];
+    let cols: [(u32, u32); 10] = [(1, 1), (1, 2), (1, 3), (1, 4), (2, 2), (2, 3), (2, 4), (3, 3), (3, 4), (4, 4)];
+    let mut k = 0;
+    while k < 10 {
+        check_one_window(&src, (rows[k].0, cols[k].0), (rows[k].1, cols[k].1));
+        check_one_window(&src, (rows[k].0, cols[9 - k].0), (rows[k].1, cols[9 - k].1));
+        k += 1;
+    }
+}
+
 /// an empty source: every window is all default (FAILS on the real code: windows containing (0, 0) panic in chunks(0))
 #[kani::proof]
 #[kani::unwind(7)]
